@@ -6,6 +6,7 @@
     the walk descends). *)
 From Coq Require Import NArith PeanoNat List Bool Lia.
 From CB Require Import Trie.Radix.
+From CB Require Import Trie.RadixProofs.
 From CB Require Import Trie.Locks.
 From CB Require Import Trie.Arena.
 From CB Require Import Trie.ArenaProofs.
@@ -87,7 +88,7 @@ Proof.
 Qed.
 
 Lemma NodeOK_default a : NodeOK a anode_default.
-Proof. repeat split; cbn; try lia; try congruence. intros _ kc []. Qed.
+Proof. repeat split; cbn; try lia; try congruence; intros _ kc []. Qed.
 
 (** Re-assemble the invariant from its parts when generations (hence checkpoints) are the same. *)
 Lemma AInv_intro a :
@@ -167,8 +168,8 @@ Proof.
     + cbn [push_entry a_nodes a_values a_entries]. rewrite app_length. cbn.
       change (cpn (push_entry a e)) with (cpn a). change (cpv (push_entry a e)) with (cpv a).
       change (cpe (push_entry a e)) with (cpe a). lia.
-    + apply (AInv_old2 a). assumption.
-    + apply (AInv_node a). assumption.
+    + intros j Hj. apply (AInv_old2 a j H Hj).
+    + intros j Hj. apply (AInv_node a j H Hj).
     + intros e' v Hge Hnth. cbn [push_entry a_entries] in Hnth. rewrite nth_app_single in Hnth.
       destruct (Nat.eqb e' (length (a_entries a))); [apply He; assumption | apply (AI_ent a H e' v Hge Hnth)].
     + apply (AI_root a H).
@@ -182,8 +183,8 @@ Proof.
   intros H Hi He. split.
   - apply AInv_intro.
     + cbn [set_entry a_nodes a_values a_entries]. rewrite set_nth_length. apply (AI_len a H).
-    + apply (AInv_old2 a). assumption.
-    + apply (AInv_node a). assumption.
+    + intros j Hj. apply (AInv_old2 a j H Hj).
+    + intros j Hj. apply (AInv_node a j H Hj).
     + intros e' v Hge Hnth. cbn [set_entry a_entries] in Hnth. rewrite nth_set_nth in Hnth.
       destruct (Nat.eqb i e'); [destruct (Nat.ltb i (length (a_entries a)))|];
         try (apply He; assumption); apply (AI_ent a H e' v Hge Hnth).
@@ -198,8 +199,8 @@ Proof.
     + cbn [push_value a_nodes a_values a_entries]. rewrite app_length. cbn.
       change (cpn (push_value a v)) with (cpn a). change (cpv (push_value a v)) with (cpv a).
       change (cpe (push_value a v)) with (cpe a). lia.
-    + apply (AInv_old2 a). assumption.
-    + apply (AInv_node a). assumption.
+    + intros j Hj. apply (AInv_old2 a j H Hj).
+    + intros j Hj. apply (AInv_node a j H Hj).
     + apply (AI_ent a H).
     + apply (AI_root a H).
   - constructor; try reflexivity. cbn [push_value a_values]. apply firstn_app_le. assumption.
@@ -210,9 +211,677 @@ Proof.
   intros H Hi. split.
   - apply AInv_intro.
     + cbn [set_value a_nodes a_values a_entries]. rewrite set_nth_length. apply (AI_len a H).
-    + apply (AInv_old2 a). assumption.
-    + apply (AInv_node a). assumption.
+    + intros j Hj. apply (AInv_old2 a j H Hj).
+    + intros j Hj. apply (AInv_node a j H Hj).
     + apply (AI_ent a H).
     + apply (AI_root a H).
   - constructor; try reflexivity. cbn [set_value a_values]. apply firstn_set_nth_ge. assumption.
+Qed.
+
+(** * Chaining *)
+
+Definition Ok (a a' : arena) : Prop :=
+  AInv a' /\ Below a a' /\ length (a_nodes a) <= length (a_nodes a').
+
+Lemma Ok_refl a : AInv a -> Ok a a.
+Proof. intros H. split; [exact H|]. split; [apply Below_refl | lia]. Qed.
+
+Lemma Ok_trans a b c : Ok a b -> Ok b c -> Ok a c.
+Proof. intros (H1 & B1 & L1) (H2 & B2 & L2). split; [exact H2|]. split; [eapply Below_trans; eassumption | lia]. Qed.
+
+Lemma NodeOK_below a a' n : Below a a' -> NodeOK a n -> NodeOK a' n.
+Proof.
+  intros B. destruct (Below_cp_eq a a' B) as (E1 & E2 & E3 & E4). unfold NodeOK. rewrite E1, E3, E4. auto.
+Qed.
+
+Lemma Ok_set_node a i n : AInv a -> cpn a <= i -> NodeOK a n -> Ok a (set_node a i n).
+Proof.
+  intros H Hi Hn. destruct (set_node_ok a i n H Hi Hn). split; [assumption|]. split; [assumption|].
+  cbn [set_node a_nodes]. rewrite set_nth_length. lia.
+Qed.
+
+Lemma Ok_push_node a n : AInv a -> NodeOK a n -> Ok a (push_node a n).
+Proof.
+  intros H Hn. destruct (push_node_ok a n H Hn). split; [assumption|]. split; [assumption|].
+  cbn [push_node a_nodes]. rewrite app_length. lia.
+Qed.
+
+Lemma Ok_push_entry a e : AInv a -> (forall v, e = EMutable v -> cpv a <= v) -> Ok a (push_entry a e).
+Proof. intros H He. destruct (push_entry_ok a e H He). split; [assumption|]. split; [assumption | cbn; lia]. Qed.
+
+Lemma Ok_set_entry a i e :
+  AInv a -> cpe a <= i -> (forall v, e = EMutable v -> cpv a <= v) -> Ok a (set_entry a i e).
+Proof. intros H Hi He. destruct (set_entry_ok a i e H Hi He). split; [assumption|]. split; [assumption | cbn; lia]. Qed.
+
+Lemma Ok_push_value a v : AInv a -> Ok a (push_value a v).
+Proof. intros H. destruct (push_value_ok a v H). split; [assumption|]. split; [assumption | cbn; lia]. Qed.
+
+Lemma Ok_set_value a i v : AInv a -> cpv a <= i -> Ok a (set_value a i v).
+Proof. intros H Hi. destruct (set_value_ok a i v H Hi). split; [assumption|]. split; [assumption | cbn; lia]. Qed.
+
+(** * The root of the current generation *)
+
+Lemma gens_last a : a_gens a <> [] -> exists older g, a_gens a = older ++ [g] /\ rev (a_gens a) = g :: rev older.
+Proof.
+  intros Hne. destruct (exists_last Hne) as (older & g & E). exists older, g. split; [exact E|].
+  rewrite E, rev_app_distr. reflexivity.
+Qed.
+
+Lemma set_root_shape a r :
+  a_gens a <> [] ->
+  exists older g, a_gens a = older ++ [g]
+    /\ a_gens (set_root a r) = older ++ [mkAG r (ag_nodes g) (ag_values g) (ag_entries g)]
+    /\ a_nodes (set_root a r) = a_nodes a /\ a_values (set_root a r) = a_values a
+    /\ a_entries (set_root a r) = a_entries a.
+Proof.
+  intros Hne. destruct (gens_last a Hne) as (older & g & E & Er). exists older, g.
+  unfold set_root. rewrite Er. cbn [a_gens a_nodes a_values a_entries].
+  split; [exact E|]. split; [|auto]. cbn [rev]. rewrite rev_involutive. reflexivity.
+Qed.
+
+Lemma removelast_app_single {A} (l : list A) x : removelast (l ++ [x]) = l.
+Proof. rewrite removelast_app by discriminate. cbn. apply app_nil_r. Qed.
+
+Theorem Ok_set_root a r :
+  AInv a -> (forall r', r = Some r' -> cpn a <= r') -> Ok a (set_root a r).
+Proof.
+  intros H Hr. destruct (a_gens a) as [|g0 gs] eqn:Eg.
+  - assert (E : set_root a r = a) by (unfold set_root; rewrite Eg; reflexivity). rewrite E. apply Ok_refl. exact H.
+  - assert (Hne : a_gens a <> []) by (rewrite Eg; discriminate).
+    destruct (set_root_shape a r Hne) as (older & g & E1 & E2 & En & Ev & Ee).
+    assert (Ecp : cur_checkpoint (set_root a r) = cur_checkpoint a).
+    { unfold cur_checkpoint. rewrite E1, E2, !rev_app_distr. reflexivity. }
+    assert (Egl : length (a_gens (set_root a r)) = length (a_gens a)).
+    { rewrite E1, E2, !app_length. reflexivity. }
+    assert (Ecr : cur_root (set_root a r) = r).
+    { unfold cur_root. rewrite E2, rev_app_distr. reflexivity. }
+    assert (C1 : cpn (set_root a r) = cpn a) by (unfold cpn; rewrite Ecp; reflexivity).
+    assert (C2 : cpv (set_root a r) = cpv a) by (unfold cpv; rewrite Ecp; reflexivity).
+    assert (C3 : cpe (set_root a r) = cpe a) by (unfold cpe; rewrite Ecp; reflexivity).
+    assert (C4 : gnum (set_root a r) = gnum a) by (unfold gnum; rewrite Egl; reflexivity).
+    assert (Nd : forall i, node_at (set_root a r) i = node_at a i) by (intros i; unfold node_at; rewrite En; reflexivity).
+    split; [|split].
+    + apply AInv_intro; rewrite ?C1, ?C2, ?C3, ?C4, ?En, ?Ev, ?Ee.
+      * apply (AI_len a H).
+      * intros i Hi. rewrite Nd. apply (AInv_old2 a i H Hi).
+      * intros i Hi. rewrite Nd. pose proof (AInv_node a i H Hi) as X. unfold NodeOK in *. rewrite C1, C3, C4. exact X.
+      * apply (AI_ent a H).
+      * intros r' Hr'. rewrite Ecr in Hr'. apply Hr. exact Hr'.
+    + constructor; rewrite ?En, ?Ev, ?Ee; try reflexivity; try assumption.
+      rewrite E1, E2, !removelast_app_single. reflexivity.
+    + rewrite En. lia.
+Qed.
+
+(** * [migrate] and [make_owned] *)
+
+Lemma src_ok a c kc : AInv a -> an_cgen (node_at a c) = gnum a -> In kc (an_ch (node_at a c)) -> cpn a <= snd kc.
+Proof.
+  intros H Hc Hin. destruct (Nat.lt_ge_cases c (cpn a)) as [Hlt|Hge].
+  - pose proof (AI_old a H c Hlt). lia.
+  - destruct (Nat.eq_dec (an_cgen (node_at a c)) (an_gen (node_at a c))) as [E|E].
+    + apply (AI_ch a H c Hge E kc Hin).
+    + pose proof (AI_sh a H c Hge E). congruence.
+Qed.
+
+Lemma migrate_ok a c :
+  AInv a ->
+  let '(a', n') := migrate a (node_at a c) (gnum a) in
+  Ok a a' /\ NodeOK a n' /\ a_nodes a' = a_nodes a /\ an_gen n' = gnum a.
+Proof.
+  intros H. pose proof (AI_len a H) as (L1 & L2 & L3). unfold migrate.
+  destruct (an_val (node_at a c)) as [idx|] eqn:Ev.
+  - split; [|split; [|split; reflexivity]].
+    + apply Ok_push_entry; [exact H|]. intros v E. destruct (nth idx (a_entries a) EDeleted); discriminate.
+    + unfold NodeOK. cbn [an_gen an_cgen an_ch an_val]. split; [reflexivity|]. split; [|split].
+      * intros E kc Hin. apply (src_ok a c kc H E Hin).
+      * intros e E. inversion E. lia.
+      * split; [apply (AI_le a H c) | lia].
+  - split; [apply Ok_refl; exact H|]. split; [|split; reflexivity].
+    unfold NodeOK. cbn [an_gen an_cgen an_ch an_val]. split; [reflexivity|]. split; [|split].
+    + intros E kc Hin. apply (src_ok a c kc H E Hin).
+    + discriminate.
+    + split; [apply (AI_le a H c) | lia].
+Qed.
+
+Lemma node_at_same_nodes a a' i : a_nodes a' = a_nodes a -> node_at a' i = node_at a i.
+Proof. intros E. unfold node_at. rewrite E. reflexivity. Qed.
+
+Lemma migrate_children_ok : forall ch a next,
+  AInv a ->
+  let '(a', ns, cs) := migrate_children a (gnum a) next ch in
+  Ok a a' /\ Forall (NodeOK a) ns /\ a_nodes a' = a_nodes a
+  /\ (forall kc, In kc cs -> next <= snd kc).
+Proof.
+  induction ch as [|[k i] ch IH]; intros a next H; cbn [migrate_children].
+  - split; [apply Ok_refl; exact H|]. split; [constructor|]. split; [reflexivity | intros kc []].
+  - pose proof (migrate_ok a i H) as M. destruct (migrate a (node_at a i) (gnum a)) as [a1 n'].
+    destruct M as (O1 & N1 & E1 & _). destruct O1 as (H1 & B1 & Ln1).
+    destruct (Below_cp_eq a a1 B1) as (_ & _ & _ & Eg).
+    specialize (IH a1 (S next) H1). rewrite Eg in IH.
+    (* the remaining children are read from the same node vector *)
+    assert (X : migrate_children a1 (gnum a) (S next) ch = migrate_children a1 (gnum a) (S next) ch) by reflexivity.
+    destruct (migrate_children a1 (gnum a) (S next) ch) as [[a2 ns] cs].
+    destruct IH as (O2 & N2 & E2 & C2). split; [|split; [|split]].
+    + eapply Ok_trans; [|exact O2]. split; [exact H1|]. split; [exact B1 | exact Ln1].
+    + constructor; [exact N1|]. eapply Forall_impl; [|exact N2]. intros n Hn.
+      unfold NodeOK in *. destruct (Below_cp_eq a a1 B1) as (F1 & _ & F3 & F4). rewrite F1, F3, F4 in Hn. exact Hn.
+    + congruence.
+    + intros kc [<-|Hin]; [cbn; lia|]. specialize (C2 kc Hin). lia.
+Qed.
+
+Lemma Ok_push_nodes : forall ns a,
+  AInv a -> Forall (NodeOK a) ns ->
+  Ok a (mkA (a_gens a) (a_entries a) (a_values a) (a_nodes a ++ ns)).
+Proof.
+  induction ns as [|n ns IH]; intros a H Hns.
+  - rewrite app_nil_r. destruct a. apply Ok_refl. exact H.
+  - inversion Hns as [|? ? Hn Hns']; subst.
+    pose proof (Ok_push_node a n H Hn) as O1. destruct O1 as (H1 & B1 & L1).
+    assert (Hns1 : Forall (NodeOK (push_node a n)) ns).
+    { eapply Forall_impl; [|exact Hns']. intros x. apply NodeOK_below. exact B1. }
+    specialize (IH (push_node a n) H1 Hns1). cbn [push_node a_gens a_entries a_values a_nodes] in IH.
+    rewrite <- app_assoc in IH. cbn [app] in IH.
+    eapply Ok_trans; [|exact IH]. split; [exact H1|]. split; assumption.
+Qed.
+
+Theorem make_owned_ok a idx :
+  AInv a -> cpn a <= idx ->
+  Ok a (make_owned a idx)
+  /\ an_cgen (node_at (make_owned a idx) idx) = an_gen (node_at (make_owned a idx) idx).
+Proof.
+  intros H Hi. unfold make_owned.
+  destruct (Nat.eqb_spec (an_cgen (node_at a idx)) (an_gen (node_at a idx))) as [E|E].
+  - split; [apply Ok_refl; exact H | exact E].
+  - pose proof (AI_sh a H idx Hi E) as Hg.
+    assert (Hlt : idx < length (a_nodes a)).
+    { destruct (Nat.lt_ge_cases idx (length (a_nodes a))) as [X|X]; [exact X|].
+      exfalso. apply E. unfold node_at. rewrite nth_overflow by exact X. reflexivity. }
+    rewrite Hg.
+    pose proof (migrate_children_ok (an_ch (node_at a idx)) a (length (a_nodes a)) H) as M.
+    destruct (migrate_children a (gnum a) (length (a_nodes a)) (an_ch (node_at a idx))) as [[a1 ns] cs].
+    destruct M as ((H1 & B1 & L1) & Nns & En & Ccs).
+    destruct (Below_cp_eq a a1 B1) as (F1 & F2 & F3 & F4).
+    assert (Nns1 : Forall (NodeOK a1) ns).
+    { eapply Forall_impl; [|exact Nns]. intros x. apply NodeOK_below. exact B1. }
+    pose proof (Ok_push_nodes ns a1 H1 Nns1) as (H2 & B2 & L2).
+    set (a2 := mkA (a_gens a1) (a_entries a1) (a_values a1) (a_nodes a1 ++ ns)) in *.
+    destruct (Below_cp_eq a1 a2 B2) as (G1 & G2 & G3 & G4).
+    assert (Hn : NodeOK a2 (mkAN (gnum a) (an_val (node_at a idx)) (an_path (node_at a idx)) (gnum a) cs)).
+    { unfold NodeOK. cbn [an_gen an_cgen an_ch an_val]. rewrite G1, G3, G4, F1, F3, F4.
+      split; [congruence|]. split; [|split].
+      - intros _ kc Hin. specialize (Ccs kc Hin). pose proof (AI_len a H). lia.
+      - intros e Ee. apply (AI_val a H idx e Hi Ee).
+      - lia. }
+    assert (Hi2 : cpn a2 <= idx) by (rewrite G1, F1; exact Hi).
+    pose proof (Ok_set_node a2 idx _ H2 Hi2 Hn) as O3.
+    split.
+    + eapply Ok_trans; [split; [exact H1|split; [exact B1|exact L1]]|].
+      eapply Ok_trans; [split; [exact H2|split; [exact B2|exact L2]]|]. exact O3.
+    + rewrite node_at_set_node, Nat.eqb_refl.
+      assert (X : Nat.ltb idx (length (a_nodes a2)) = true).
+      { apply Nat.ltb_lt. unfold a2. cbn [a_nodes]. rewrite app_length, En. lia. }
+      rewrite X. reflexivity.
+Qed.
+
+(** After [make_owned] the children of the node are above the checkpoint. *)
+Corollary make_owned_children a idx kc :
+  AInv a -> cpn a <= idx -> In kc (an_ch (node_at (make_owned a idx) idx)) -> cpn a <= snd kc.
+Proof.
+  intros H Hi Hin. destruct (make_owned_ok a idx H Hi) as ((H1 & B1 & _) & E).
+  destruct (Below_cp_eq _ _ B1) as (F1 & _). rewrite <- F1.
+  apply (AI_ch _ H1 idx); [rewrite F1; exact Hi | exact E | exact Hin].
+Qed.
+
+Lemma find_child_in c ch pos p i : find_child c ch pos = Some (p, i) -> exists k, In (k, i) ch.
+Proof.
+  revert pos. induction ch as [|[k j] ch IH]; intros pos H; cbn in H; [discriminate|].
+  destruct (N.eqb c k).
+  - inversion H; subst. exists k. left. reflexivity.
+  - destruct (IH _ H) as [k' Hk]. exists k'. right. exact Hk.
+Qed.
+
+(** * Helpers for the operations *)
+
+Lemma Ok_cp a a' : Ok a a' -> cpn a' = cpn a /\ cpv a' = cpv a /\ cpe a' = cpe a /\ gnum a' = gnum a.
+Proof. intros (_ & B & _). apply Below_cp_eq. exact B. Qed.
+
+Lemma NodeOK_ok a a' n : Ok a a' -> NodeOK a n -> NodeOK a' n.
+Proof. intros (_ & B & _). apply NodeOK_below. exact B. Qed.
+
+Lemma NodeOK_with_children a n ch' :
+  NodeOK a n -> (forall kc, In kc ch' -> In kc (an_ch n) \/ cpn a <= snd kc) -> NodeOK a (with_children n ch').
+Proof.
+  intros (N1 & N2 & N3 & N4) Hch. unfold NodeOK, with_children. cbn [an_gen an_cgen an_ch an_val].
+  split; [exact N1|]. split; [|split; assumption].
+  intros E kc Hin. destruct (Hch kc Hin) as [X|X]; [apply (N2 E kc X) | exact X].
+Qed.
+
+Lemma NodeOK_with_path a n p : NodeOK a n -> NodeOK a (with_path n p).
+Proof. intros X. exact X. Qed.
+
+Lemma NodeOK_with_val a n v : NodeOK a n -> (forall e, v = Some e -> cpe a <= e) -> NodeOK a (with_val n v).
+Proof.
+  intros (N1 & N2 & N3 & N4) Hv. unfold NodeOK, with_val. cbn [an_gen an_cgen an_ch an_val]. auto.
+Qed.
+
+Lemma In_set_child_index pos i ch kc : In kc (set_child_index pos i ch) -> In kc ch \/ snd kc = i.
+Proof.
+  revert pos. induction ch as [|[k j] ch IH]; intros pos H; [destruct pos; destruct H|].
+  destruct pos as [|pos]; cbn in H.
+  - destruct H as [<-|H]; [right; reflexivity | left; right; exact H].
+  - destruct H as [<-|H]; [left; left; reflexivity|]. destruct (IH pos H); [left; right; assumption | right; assumption].
+Qed.
+
+Lemma In_insert_child c i ch kc : In kc (insert_child c i ch) -> In kc ch \/ snd kc = i.
+Proof.
+  induction ch as [|[k j] ch IH]; cbn; intros H.
+  - destruct H as [<-|[]]. right. reflexivity.
+  - destruct (N.ltb c k).
+    + destruct H as [<-|H]; [right; reflexivity | left; exact H].
+    + destruct H as [<-|H]; [left; left; reflexivity|]. destruct (IH H); [left; right; assumption | right; assumption].
+Qed.
+
+Lemma In_remove_nth {A} pos (l : list A) x : In x (remove_nth pos l) -> In x l.
+Proof.
+  revert pos. induction l as [|y l IH]; intros pos H; [destruct pos; destruct H|].
+  destruct pos as [|pos]; cbn in H; [right; exact H|].
+  destruct H as [<-|H]; [left; reflexivity | right; apply (IH pos H)].
+Qed.
+
+Lemma nth_error_nth' {A} (l : list A) n x d : nth_error l n = Some x -> nth n l d = x.
+Proof. revert n. induction l as [|y l IH]; intros [|n] H; cbn in *; try discriminate; [congruence | auto]. Qed.
+
+(** * Entries *)
+
+Lemma new_entry_ok a v :
+  AInv a ->
+  Ok a (fst (new_entry a v)) /\ cpe a <= snd (new_entry a v)
+  /\ a_nodes (fst (new_entry a v)) = a_nodes a.
+Proof.
+  intros H. unfold new_entry. cbn [fst snd]. pose proof (AI_len a H) as (L1 & L2 & L3).
+  split; [|split; [exact L3 | reflexivity]].
+  pose proof (Ok_push_value a v H) as O1.
+  eapply Ok_trans; [exact O1|]. apply Ok_push_entry; [apply O1|].
+  intros x E. inversion E. destruct (Ok_cp _ _ O1) as (_ & F2 & _). rewrite F2. exact L2.
+Qed.
+
+Lemma set_entry_value_ok a e v : AInv a -> cpe a <= e -> Ok a (a_set_entry_value a e v).
+Proof.
+  intros H He. unfold a_set_entry_value. pose proof (AI_len a H) as (L1 & L2 & L3).
+  destruct (nth e (a_entries a) EDeleted) as [i|i|] eqn:E.
+  - pose proof (Ok_push_value a v H) as O1. eapply Ok_trans; [exact O1|].
+    destruct (Ok_cp _ _ O1) as (_ & F2 & F3 & _).
+    apply Ok_set_entry; [apply O1 | rewrite F3; exact He|]. intros x X. inversion X. rewrite F2. exact L2.
+  - apply Ok_set_value; [exact H | apply (AI_ent a H e i He E)].
+  - pose proof (Ok_push_value a v H) as O1. eapply Ok_trans; [exact O1|].
+    destruct (Ok_cp _ _ O1) as (_ & F2 & F3 & _).
+    apply Ok_set_entry; [apply O1 | rewrite F3; exact He|]. intros x X. inversion X. rewrite F2. exact L2.
+Qed.
+
+Lemma a_set_ok a e v : AInv a -> cpe a <= e -> Ok a (fst (a_set a e v)).
+Proof.
+  intros H He. unfold a_set. pose proof (AI_len a H) as (L1 & L2 & L3).
+  destruct (nth_error (a_entries a) e) as [[i|i|]|] eqn:E; cbn [fst]; try (apply Ok_refl; exact H).
+  - pose proof (Ok_push_value a v H) as O1. eapply Ok_trans; [exact O1|].
+    destruct (Ok_cp _ _ O1) as (_ & F2 & F3 & _).
+    apply Ok_set_entry; [apply O1 | rewrite F3; exact He|]. intros x X. inversion X. rewrite F2. exact L2.
+  - apply Ok_set_value; [exact H|]. apply (AI_ent a H e i He). apply nth_error_nth'. exact E.
+Qed.
+
+Lemma a_mut_ok a e v : AInv a -> cpe a <= e -> Ok a (fst (a_mut a e v)).
+Proof.
+  intros H He. unfold a_mut. pose proof (AI_len a H) as (L1 & L2 & L3).
+  destruct (nth_error (a_entries a) e) as [[i|i|]|] eqn:E; cbn [fst]; try (apply Ok_refl; exact H).
+  - pose proof (Ok_push_value a v H) as O1. eapply Ok_trans; [exact O1|].
+    destruct (Ok_cp _ _ O1) as (_ & F2 & F3 & _).
+    apply Ok_set_entry; [apply O1 | rewrite F3; exact He|]. intros x X. inversion X. rewrite F2. exact L2.
+  - apply Ok_set_value; [exact H|]. apply (AI_ent a H e i He). apply nth_error_nth'. exact E.
+Qed.
+
+Lemma kill_entry_ok a e : AInv a -> cpe a <= e -> Ok a (fst (kill_entry a e)).
+Proof.
+  intros H He. unfold kill_entry.
+  assert (O1 : Ok a (set_entry a e EDeleted)) by (apply Ok_set_entry; [exact H | exact He | discriminate]).
+  destruct (nth e (a_entries a) EDeleted) as [i|i|] eqn:E; cbn [fst]; try exact O1.
+  eapply Ok_trans; [exact O1|]. apply Ok_set_value; [apply O1|].
+  destruct (Ok_cp _ _ O1) as (_ & F2 & _). rewrite F2. apply (AI_ent a H e i He E).
+Qed.
+
+(** * [get_entry] *)
+
+Lemma get_entry_ok : forall fuel a idx k,
+  AInv a -> cpn a <= idx ->
+  Ok a (fst (a_get_entry fuel a idx k))
+  /\ (forall e, snd (a_get_entry fuel a idx k) = Some e -> cpe a <= e).
+Proof.
+  induction fuel as [|fuel IH]; intros a idx k H Hi; cbn [a_get_entry].
+  - split; [apply Ok_refl; exact H | discriminate].
+  - destruct (follow_stem k (an_path (node_at a idx))) as [|s ps|c k'|cm kc kr sc sr]; cbn [fst snd];
+      try (split; [apply Ok_refl; exact H | discriminate]).
+    + split; [apply Ok_refl; exact H|]. intros e E. apply (AI_val a H idx e Hi E).
+    + destruct (make_owned_ok a idx H Hi) as (O1 & Eown).
+      destruct (find_child c (an_ch (node_at (make_owned a idx) idx)) 0) as [[pos i]|] eqn:F.
+      * destruct (find_child_in _ _ _ _ _ F) as [kk Hin].
+        pose proof (make_owned_children a idx (kk, i) H Hi Hin) as Hci. cbn [snd] in Hci.
+        destruct (Ok_cp _ _ O1) as (F1 & _ & F3 & _).
+        destruct (IH (make_owned a idx) i k' (proj1 O1) ltac:(rewrite F1; exact Hci)) as (O2 & He).
+        split; [eapply Ok_trans; eassumption|]. intros e E. rewrite <- F3. apply He. exact E.
+      * cbn [fst snd]. split; [exact O1 | discriminate].
+Qed.
+
+Lemma lookup_key_ok a key :
+  AInv a ->
+  Ok a (fst (a_lookup_key a key)) /\ (forall e, snd (a_lookup_key a key) = Some e -> cpe a <= e).
+Proof.
+  intros H. unfold a_lookup_key. destruct (cur_root a) as [r|] eqn:Er.
+  - apply get_entry_ok; [exact H | apply (AI_root a H r Er)].
+  - cbn. split; [apply Ok_refl; exact H | discriminate].
+Qed.
+
+(** * [insert] *)
+
+Definition parent_ok (a : arena) (parent : option (nat * nat)) : Prop :=
+  forall p pos, parent = Some (p, pos) -> cpn a <= p.
+
+Lemma NodeOK_fresh a g val path ch :
+  g <= gnum a -> (forall kc, In kc ch -> cpn a <= snd kc) -> (forall e, val = Some e -> cpe a <= e) ->
+  NodeOK a (mkAN g val path g ch).
+Proof.
+  intros Hg Hch Hv. unfold NodeOK. cbn [an_gen an_cgen an_ch an_val].
+  split; [congruence|]. split; [intros _; exact Hch|]. split; [exact Hv | lia].
+Qed.
+
+Lemma relink_ok a parent i : AInv a -> parent_ok a parent -> cpn a <= i -> Ok a (relink a parent i).
+Proof.
+  intros H Hp Hi. unfold relink. destruct parent as [[p pos]|].
+  - specialize (Hp p pos eq_refl). apply Ok_set_node; [exact H | exact Hp|].
+    apply NodeOK_with_children; [apply AInv_node; assumption|].
+    intros kc Hin. destruct (In_set_child_index _ _ _ _ Hin) as [X|X]; [left; exact X | right; lia].
+  - apply Ok_set_root; [exact H|]. intros r' E. inversion E. subst. exact Hi.
+Qed.
+
+Lemma follow_stem_shorter k p c k' : follow_stem k p = FStemIsPrefix c k' -> length k' < length k.
+Proof.
+  intros E. pose proof (follow_stem_spec k p) as S. rewrite E in S. subst k.
+  rewrite app_length. cbn. lia.
+Qed.
+
+Lemma insert_loop_ok : forall fuel a gen idx parent k v,
+  AInv a -> cpn a <= idx -> parent_ok a parent -> gen <= gnum a ->
+  Ok a (fst (fst (ar_insert_loop fuel a gen idx parent k v)))
+  /\ (length k < fuel -> cpe a <= snd (fst (ar_insert_loop fuel a gen idx parent k v))).
+Proof.
+  induction fuel as [|fuel IH]; intros a gen idx parent k v H Hi Hp Hg; cbn [ar_insert_loop].
+  - cbn. split; [apply Ok_refl; exact H | lia].
+  - pose proof (AInv_node a idx H Hi) as Hn.
+    destruct (follow_stem k (an_path (node_at a idx))) as [|s ps|c k'|cm kc kr sc sr] eqn:EF.
+    + (* Equal *)
+      destruct (an_val (node_at a idx)) as [e0|] eqn:Ev; cbn [fst snd].
+      * pose proof (AI_val a H idx e0 Hi Ev) as He0.
+        split; [apply set_entry_value_ok; assumption | intros _; exact He0].
+      * destruct (new_entry_ok a v H) as (O1 & He & En). destruct (new_entry a v) as [a1 e]. cbn [fst snd] in *.
+        destruct (Ok_cp _ _ O1) as (F1 & F2 & F3 & F4).
+        split; [|intros _; exact He].
+        eapply Ok_trans; [exact O1|]. apply Ok_set_node; [apply O1 | lia|].
+        apply NodeOK_with_val; [eapply NodeOK_ok; eassumption|]. intros x X. inversion X. lia.
+    + (* KeyIsPrefix *)
+      destruct (new_entry_ok a v H) as (O1 & He & En). destruct (new_entry a v) as [a1 e]. cbn [fst snd] in *.
+      destruct (Ok_cp _ _ O1) as (F1 & F2 & F3 & F4).
+      assert (O2 : Ok a1 (set_node a1 idx (with_path (node_at a idx) ps))).
+      { apply Ok_set_node; [apply O1 | lia|]. apply NodeOK_with_path. eapply NodeOK_ok; eassumption. }
+      set (a2 := set_node a1 idx (with_path (node_at a idx) ps)) in *.
+      destruct (Ok_cp _ _ O2) as (G1 & G2 & G3 & G4).
+      pose proof (AI_len a2 (proj1 O2)) as (L1 & _).
+      assert (O3 : Ok a2 (relink a2 parent (length (a_nodes a2)))).
+      { apply relink_ok; [apply O2 | | lia]. intros p pos E. specialize (Hp p pos E). lia. }
+      set (a3 := relink a2 parent (length (a_nodes a2))) in *.
+      destruct (Ok_cp _ _ O3) as (K1 & K2 & K3 & K4).
+      split; [|intros _; exact He].
+      eapply Ok_trans; [exact O1|]. eapply Ok_trans; [exact O2|]. eapply Ok_trans; [exact O3|].
+      apply Ok_push_node; [apply O3|]. apply NodeOK_fresh; [lia | | ].
+      * intros kc0 [<-|[]]. cbn. lia.
+      * intros x X. inversion X. lia.
+    + (* StemIsPrefix *)
+      destruct (make_owned_ok a idx H Hi) as (O1 & Eown).
+      destruct (Ok_cp _ _ O1) as (F1 & F2 & F3 & F4).
+      destruct (find_child c (an_ch (node_at (make_owned a idx) idx)) 0) as [[pos i]|] eqn:F.
+      * destruct (find_child_in _ _ _ _ _ F) as [kk Hin].
+        pose proof (make_owned_children a idx (kk, i) H Hi Hin) as Hci. cbn [snd] in Hci.
+        destruct (IH (make_owned a idx) gen i (Some (idx, pos)) k' v (proj1 O1)) as (O2 & He); try lia.
+        { intros p pos' E. inversion E. subst. lia. }
+        split; [eapply Ok_trans; eassumption|]. intros Hl. rewrite <- F3. apply He.
+        pose proof (follow_stem_shorter _ _ _ _ EF). lia.
+      * set (a1 := make_owned a idx) in *.
+        pose proof (AI_len a1 (proj1 O1)) as (L1 & _).
+        assert (O2 : Ok a1 (set_node a1 idx (with_children (node_at a1 idx)
+                          (insert_child c (length (a_nodes a1)) (an_ch (node_at a1 idx)))))).
+        { apply Ok_set_node; [apply O1 | lia|].
+          apply NodeOK_with_children; [apply AInv_node; [apply O1 | lia]|].
+          intros kc0 Hin. destruct (In_insert_child _ _ _ _ Hin) as [X|X]; [left; exact X | right; lia]. }
+        set (a2 := set_node a1 idx _) in *.
+        destruct (Ok_cp _ _ O2) as (G1 & G2 & G3 & G4).
+        destruct (new_entry_ok a2 v (proj1 O2)) as (O3 & He & En). destruct (new_entry a2 v) as [a3 e]. cbn [fst snd] in *.
+        destruct (Ok_cp _ _ O3) as (K1 & K2 & K3 & K4).
+        split; [|intros _; lia].
+        eapply Ok_trans; [exact O1|]. eapply Ok_trans; [exact O2|]. eapply Ok_trans; [exact O3|].
+        apply Ok_push_node; [apply O3|]. apply NodeOK_fresh; [lia | intros kc0 [] |].
+        intros x X. inversion X. lia.
+    + (* Diff *)
+      pose proof (AI_len a H) as (L1 & _).
+      assert (O1 : Ok a (set_node a idx (with_path (node_at a idx) sr))).
+      { apply Ok_set_node; [exact H | exact Hi|]. apply NodeOK_with_path. exact Hn. }
+      set (a1 := set_node a idx (with_path (node_at a idx) sr)) in *.
+      destruct (Ok_cp _ _ O1) as (F1 & F2 & F3 & F4).
+      destruct (new_entry_ok a1 v (proj1 O1)) as (O2 & He & En). destruct (new_entry a1 v) as [a2 e]. cbn [fst snd] in *.
+      destruct (Ok_cp _ _ O2) as (G1 & G2 & G3 & G4).
+      assert (O3 : Ok a2 (push_node a2 (mkAN gen (Some e) kr gen []))).
+      { apply Ok_push_node; [apply O2|]. apply NodeOK_fresh; [lia | intros kc0 [] |]. intros x X. inversion X. lia. }
+      set (a3 := push_node a2 _) in *.
+      destruct (Ok_cp _ _ O3) as (K1 & K2 & K3 & K4).
+      set (chs := if (kc <? sc)%N then [(kc, length (a_nodes a)); (sc, idx)] else [(sc, idx); (kc, length (a_nodes a))]).
+      assert (O4 : Ok a3 (push_node a3 (mkAN gen None cm gen chs))).
+      { apply Ok_push_node; [apply O3|]. apply NodeOK_fresh; [lia | | discriminate].
+        intros kc0 Hin. unfold chs in Hin. destruct (kc <? sc)%N; cbn in Hin;
+          destruct Hin as [<-|[<-|[]]]; cbn; lia. }
+      set (a4 := push_node a3 _) in *.
+      destruct (Ok_cp _ _ O4) as (M1 & M2 & M3 & M4).
+      cbn [fst snd]. split; [|intros _; lia].
+      eapply Ok_trans; [exact O1|]. eapply Ok_trans; [exact O2|]. eapply Ok_trans; [exact O3|].
+      eapply Ok_trans; [exact O4|]. apply relink_ok; [apply O4 | | lia].
+      intros p pos E. specialize (Hp p pos E). lia.
+Qed.
+
+Theorem ar_insert_ok a key v :
+  AInv a -> Ok a (fst (fst (ar_insert a key v))) /\ cpe a <= snd (fst (ar_insert a key v)).
+Proof.
+  intros H. unfold ar_insert. destruct (cur_root a) as [r|] eqn:Er.
+  - pose proof (AI_root a H r Er) as Hr.
+    destruct (insert_loop_ok (S (length (nib key))) a (an_gen (node_at a r)) r None (nib key) v H Hr) as (O & He).
+    + intros p pos E. discriminate.
+    + apply (AI_le a H r).
+    + split; [exact O | apply He; lia].
+  - destruct (new_entry_ok a v H) as (O1 & He & En). destruct (new_entry a v) as [a1 e]. cbn [fst snd] in *.
+    destruct (Ok_cp _ _ O1) as (F1 & F2 & F3 & F4).
+    pose proof (AI_len a H) as (L1 & _).
+    assert (O2 : Ok a1 (push_node a1 (mkAN (length (a_gens a) - 1) (Some e) (nib key) (length (a_gens a) - 1) []))).
+    { apply Ok_push_node; [apply O1|]. apply NodeOK_fresh; [unfold gnum in *; lia | intros kc [] |].
+      intros x X. inversion X. lia. }
+    set (a2 := push_node a1 _) in *. destruct (Ok_cp _ _ O2) as (G1 & G2 & G3 & G4).
+    split; [|exact He].
+    eapply Ok_trans; [exact O1|]. eapply Ok_trans; [exact O2|].
+    apply Ok_set_root; [apply O2|]. intros r' E. inversion E. lia.
+Qed.
+
+(** * [delete] *)
+
+Definition up_ok (a : arena) (up : option (nat * nat)) : Prop :=
+  forall pos u, up = Some (pos, u) -> cpn a <= u.
+
+Lemma collapse_ok a idx up :
+  AInv a -> cpn a <= idx -> an_cgen (node_at a idx) = an_gen (node_at a idx) -> up_ok a up ->
+  Ok a (collapse_into_child a idx up).
+Proof.
+  intros H Hi Eown Hup. unfold collapse_into_child.
+  destruct (an_ch (node_at a idx)) as [|[ck ci] [|? ?]] eqn:Ech; try (apply Ok_refl; exact H).
+  assert (Hci : cpn a <= ci).
+  { apply (AI_ch a H idx Hi Eown (ck, ci)). rewrite Ech. left. reflexivity. }
+  assert (O1 : Ok a (set_node a idx anode_default)) by (apply Ok_set_node; [exact H | exact Hi | apply NodeOK_default]).
+  set (a1 := set_node a idx anode_default) in *. destruct (Ok_cp _ _ O1) as (F1 & F2 & F3 & F4).
+  assert (O2 : Ok a1 (set_node a1 ci (with_path (node_at a1 ci) (an_path (node_at a idx) ++ ck :: an_path (node_at a1 ci))))).
+  { apply Ok_set_node; [apply O1 | lia|]. apply NodeOK_with_path. apply AInv_node; [apply O1 | lia]. }
+  set (a2 := set_node a1 ci _) in *. destruct (Ok_cp _ _ O2) as (G1 & G2 & G3 & G4).
+  eapply Ok_trans; [exact O1|]. eapply Ok_trans; [exact O2|].
+  destruct up as [[pos u]|].
+  - specialize (Hup pos u eq_refl). apply Ok_set_node; [apply O2 | lia|].
+    apply NodeOK_with_children; [apply AInv_node; [apply O2 | lia]|].
+    intros kc Hin. destruct (In_set_child_index _ _ _ _ Hin) as [X|X]; [left; exact X | right; lia].
+  - apply Ok_set_root; [apply O2|]. intros r' E. inversion E. lia.
+Qed.
+
+Lemma unshared_after_set a i n ch :
+  an_cgen n = an_gen n ->
+  an_cgen (node_at (set_node a i (with_children n ch)) i) = an_gen (node_at (set_node a i (with_children n ch)) i)
+  \/ node_at (set_node a i (with_children n ch)) i = node_at a i.
+Proof.
+  intros E. rewrite node_at_set_node, Nat.eqb_refl.
+  destruct (Nat.ltb i (length (a_nodes a))); [left; exact E | right; reflexivity].
+Qed.
+
+Lemma delete_loop_ok : forall fuel a idx father grandfather k,
+  AInv a -> cpn a <= idx -> up_ok a father -> up_ok a grandfather ->
+  Ok a (fst (ar_delete_loop fuel a idx father grandfather k)).
+Proof.
+  induction fuel as [|fuel IH]; intros a idx father grandfather k H Hi Hf Hgf; cbn [ar_delete_loop].
+  - apply Ok_refl. exact H.
+  - destruct (follow_stem k (an_path (node_at a idx))) as [|s ps|c k'|cm kc kr sc sr] eqn:EF;
+      try (apply Ok_refl; exact H).
+    + destruct (an_val (node_at a idx)) as [e|] eqn:Ev; [|apply Ok_refl; exact H].
+      pose proof (AI_val a H idx e Hi Ev) as He.
+      pose proof (kill_entry_ok a e H He) as O1. destruct (kill_entry a e) as [a1 rv]. cbn [fst] in *.
+      destruct (Ok_cp _ _ O1) as (F1 & F2 & F3 & F4).
+      assert (O2 : Ok a1 (set_node a1 idx (with_val (node_at a1 idx) None))).
+      { apply Ok_set_node; [apply O1 | lia|]. apply NodeOK_with_val; [apply AInv_node; [apply O1 | lia] | discriminate]. }
+      set (a2 := set_node a1 idx _) in *. destruct (Ok_cp _ _ O2) as (G1 & G2 & G3 & G4).
+      destruct (make_owned_ok a2 idx (proj1 O2) ltac:(lia)) as (O3 & Eown).
+      set (a3 := make_owned a2 idx) in *. destruct (Ok_cp _ _ O3) as (K1 & K2 & K3 & K4).
+      assert (O13 : Ok a a3) by (eapply Ok_trans; [exact O1|]; eapply Ok_trans; eassumption).
+      destruct (an_ch (node_at a3 idx)) as [|c0 [|c1 cr]] eqn:Ech; cbn [fst].
+      * destruct father as [[child_pos fidx]|]; cbn [fst].
+        -- specialize (Hf child_pos fidx eq_refl).
+           destruct (make_owned_ok a3 fidx (proj1 O3) ltac:(lia)) as (O4 & Eown4).
+           set (a4 := make_owned a3 fidx) in *. destruct (Ok_cp _ _ O4) as (M1 & M2 & M3 & M4).
+           assert (O5 : Ok a4 (set_node a4 fidx (with_children (node_at a4 fidx) (remove_nth child_pos (an_ch (node_at a4 fidx)))))).
+           { apply Ok_set_node; [apply O4 | lia|].
+             apply NodeOK_with_children; [apply AInv_node; [apply O4 | lia]|].
+             intros kc0 Hin. left. eapply In_remove_nth. exact Hin. }
+           set (a5 := set_node a4 fidx _) in *. destruct (Ok_cp _ _ O5) as (P1 & P2 & P3 & P4).
+           assert (O15 : Ok a a5) by (eapply Ok_trans; [exact O13|]; eapply Ok_trans; eassumption).
+           destruct (negb (match an_val (node_at a4 fidx) with Some _ => true | None => false end)
+                     && Nat.eqb (length (remove_nth child_pos (an_ch (node_at a4 fidx)))) 1); cbn [fst]; [|exact O15].
+           eapply Ok_trans; [exact O15|]. apply collapse_ok; [apply O5 | lia | |].
+           ++ destruct (unshared_after_set a4 fidx (node_at a4 fidx) (remove_nth child_pos (an_ch (node_at a4 fidx))) Eown4) as [X|X];
+                [exact X | fold a5 in X; rewrite X; exact Eown4].
+           ++ intros pos u E. specialize (Hgf pos u E). lia.
+        -- eapply Ok_trans; [exact O13|]. apply Ok_set_root; [apply O3 | discriminate].
+      * eapply Ok_trans; [exact O13|]. apply collapse_ok; [apply O3 | lia | exact Eown|].
+        intros pos u E. specialize (Hf pos u E). lia.
+      * exact O13.
+    + destruct (make_owned_ok a idx H Hi) as (O1 & Eown).
+      destruct (Ok_cp _ _ O1) as (F1 & F2 & F3 & F4).
+      destruct (find_child c (an_ch (node_at (make_owned a idx) idx)) 0) as [[pos i]|] eqn:F; [|exact O1].
+      destruct (find_child_in _ _ _ _ _ F) as [kk Hin].
+      pose proof (make_owned_children a idx (kk, i) H Hi Hin) as Hci. cbn [snd] in Hci.
+      eapply Ok_trans; [exact O1|]. apply IH; [apply O1 | lia | |].
+      * intros p u E. inversion E. subst. lia.
+      * intros p u E. specialize (Hf p u E). lia.
+Qed.
+
+Theorem ar_delete_ok a key : AInv a -> Ok a (fst (ar_delete a key)).
+Proof.
+  intros H. unfold ar_delete. destruct (cur_root a) as [r|] eqn:Er; [|apply Ok_refl; exact H].
+  apply delete_loop_ok; [exact H | apply (AI_root a H r Er) | |]; intros p u E; discriminate.
+Qed.
+
+(** * [delete_prefix] *)
+
+Lemma kill_entry_nodes a e : a_nodes (fst (kill_entry a e)) = a_nodes a.
+Proof. unfold kill_entry. destruct (nth e (a_entries a) EDeleted); reflexivity. Qed.
+
+Lemma invalidate_ok : forall fuel a stack,
+  AInv a -> (forall i, In i stack -> cpn a <= i) -> Ok a (invalidate fuel a stack).
+Proof.
+  induction fuel as [|fuel IH]; intros a stack H Hs; cbn [invalidate].
+  - apply Ok_refl. exact H.
+  - destruct stack as [|i rest]; [apply Ok_refl; exact H|].
+    pose proof (Hs i (or_introl eq_refl)) as Hi.
+    assert (O1 : Ok a (match an_val (node_at a i) with Some e => fst (kill_entry a e) | None => a end)).
+    { destruct (an_val (node_at a i)) as [e|] eqn:Ev; [|apply Ok_refl; exact H].
+      apply kill_entry_ok; [exact H | apply (AI_val a H i e Hi Ev)]. }
+    set (a1 := match an_val (node_at a i) with Some e => fst (kill_entry a e) | None => a end) in *.
+    destruct (Ok_cp _ _ O1) as (F1 & F2 & F3 & F4).
+    eapply Ok_trans; [exact O1|]. apply IH; [apply O1|].
+    intros j Hj. rewrite F1. apply in_app_iff in Hj as [Hj|Hj]; [|apply Hs; right; exact Hj].
+    destruct (Nat.eqb_spec (an_gen (node_at a i)) (an_cgen (node_at a i))) as [E|E]; [|destruct Hj].
+    apply in_rev in Hj. apply in_map_iff in Hj as [kc [<- Hin]].
+    apply (AI_ch a H i Hi (eq_sym E) kc Hin).
+Qed.
+
+Lemma delete_prefix_loop_ok : forall fuel a idx parent grandparent k,
+  AInv a -> cpn a <= idx -> up_ok a parent -> up_ok a grandparent ->
+  Ok a (fst (ar_delete_prefix_loop fuel a idx parent grandparent k)).
+Proof.
+  induction fuel as [|fuel IH]; intros a idx parent grandparent k H Hi Hp Hgp; cbn [ar_delete_prefix_loop].
+  - apply Ok_refl. exact H.
+  - assert (Found : Ok a (fst (
+        let a1 := invalidate (S (length (a_nodes a))) a [idx] in
+        match parent with
+        | Some (child_pos, parent_idx) =>
+            let a2 := make_owned a1 parent_idx in
+            let pn := node_at a2 parent_idx in
+            let has_value := match an_val pn with Some _ => true | None => false end in
+            let ch' := remove_nth child_pos (an_ch pn) in
+            let a3 := set_node a2 parent_idx (with_children pn ch') in
+            if negb has_value && Nat.eqb (length ch') 1
+            then (collapse_into_child a3 parent_idx grandparent, true)
+            else (a3, true)
+        | None => (set_root a1 None, true)
+        end))).
+    { cbv zeta.
+      assert (O1 : Ok a (invalidate (S (length (a_nodes a))) a [idx])).
+      { apply invalidate_ok; [exact H|]. intros j [<-|[]]. exact Hi. }
+      set (a1 := invalidate (S (length (a_nodes a))) a [idx]) in *.
+      destruct (Ok_cp _ _ O1) as (F1 & F2 & F3 & F4).
+      destruct parent as [[child_pos pidx]|]; cbn [fst].
+      - specialize (Hp child_pos pidx eq_refl).
+        destruct (make_owned_ok a1 pidx (proj1 O1) ltac:(lia)) as (O2 & Eown).
+        set (a2 := make_owned a1 pidx) in *. destruct (Ok_cp _ _ O2) as (G1 & G2 & G3 & G4).
+        assert (O3 : Ok a2 (set_node a2 pidx (with_children (node_at a2 pidx) (remove_nth child_pos (an_ch (node_at a2 pidx)))))).
+        { apply Ok_set_node; [apply O2 | lia|].
+          apply NodeOK_with_children; [apply AInv_node; [apply O2 | lia]|].
+          intros kc0 Hin. left. eapply In_remove_nth. exact Hin. }
+        set (a3 := set_node a2 pidx _) in *. destruct (Ok_cp _ _ O3) as (K1 & K2 & K3 & K4).
+        assert (O13 : Ok a a3) by (eapply Ok_trans; [exact O1|]; eapply Ok_trans; eassumption).
+        destruct (negb (match an_val (node_at a2 pidx) with Some _ => true | None => false end)
+                  && Nat.eqb (length (remove_nth child_pos (an_ch (node_at a2 pidx)))) 1); cbn [fst]; [|exact O13].
+        eapply Ok_trans; [exact O13|]. apply collapse_ok; [apply O3 | lia | |].
+        + destruct (unshared_after_set a2 pidx (node_at a2 pidx) (remove_nth child_pos (an_ch (node_at a2 pidx))) Eown) as [X|X];
+            [exact X | fold a3 in X; rewrite X; exact Eown].
+        + intros pos u E. specialize (Hgp pos u E). lia.
+      - eapply Ok_trans; [exact O1|]. apply Ok_set_root; [apply O1 | discriminate]. }
+    destruct (follow_stem k (an_path (node_at a idx))) as [|s ps|c k'|cm kc kr sc sr] eqn:EF;
+      try exact Found; try (apply Ok_refl; exact H).
+    destruct (make_owned_ok a idx H Hi) as (O1 & Eown).
+    destruct (Ok_cp _ _ O1) as (F1 & F2 & F3 & F4).
+    destruct (find_child c (an_ch (node_at (make_owned a idx) idx)) 0) as [[pos i]|] eqn:F; [|exact O1].
+    destruct (find_child_in _ _ _ _ _ F) as [kk Hin].
+    pose proof (make_owned_children a idx (kk, i) H Hi Hin) as Hci. cbn [snd] in Hci.
+    eapply Ok_trans; [exact O1|]. apply IH; [apply O1 | lia | |].
+    + intros p u E. inversion E. subst. lia.
+    + intros p u E. specialize (Hp p u E). lia.
+Qed.
+
+Theorem ar_delete_prefix_ok a key : AInv a -> Ok a (fst (ar_delete_prefix a key)).
+Proof.
+  intros H. unfold ar_delete_prefix. destruct (cur_root a) as [r|] eqn:Er; [|apply Ok_refl; exact H].
+  apply delete_prefix_loop_ok; [exact H | apply (AI_root a H r Er) | |]; intros p u E; discriminate.
 Qed.
